@@ -316,7 +316,17 @@ def multi_cells(chk: Check, mm: Mismatch, *, variant: str, hdrs: list, via: str,
         try:
             run.forward_layers(inputs)
             run.train(r * unit, scale, sel)
-            outs = [run.read(0)] if oneconn else [None if j == dropped else run.read(j) for j in range(n)]
+            if not guards and rng.random() < 0.3:
+                # the parts are applied through trainer.update(): every updater exactly once, even when several cells
+                # share it (seeded C08-m14)
+                allp, once = run.read_all_via_trainer()
+                outs = [allp[0]] if oneconn else allp
+                steps[-1]["via_trainer_update"] = True
+                if not once:
+                    mm.add(dict(sig, clause="TrainerUpdateOnce"), dict(rep, steps=steps, t=t))
+                    return edges
+            else:
+                outs = [run.read(0)] if oneconn else [None if j == dropped else run.read(j) for j in range(n)]
         except Exception as e:
             mm.add(dict(sig, clause="Raised", where="step", exc=type(e).__name__),
                    dict(rep, steps=steps, t=t, error=repr(e)))
